@@ -71,3 +71,16 @@ macro_rules! html_trace_quiet {
         $crate::macros::nop();
     };
 }
+
+/* Verification hooks: expand to a call into `crate::verif_hooks` when the
+ * `verif_hooks` feature is on, and to nothing at all otherwise. */
+#[cfg(feature = "verif_hooks")]
+macro_rules! verif_hook {
+    ($($call:tt)*) => {
+        $crate::verif_hooks::$($call)*;
+    };
+}
+#[cfg(not(feature = "verif_hooks"))]
+macro_rules! verif_hook {
+    ($($call:tt)*) => {};
+}
